@@ -608,7 +608,10 @@ func (x *Exec) nextInstr(st *State, fr *Frame, i *ssa.Next, set func(Value)) {
 		return
 	}
 	// generic map: an arbitrary present entry
-	kv := x.symbolic(st, mt.Key(), x.sym.Fresh("range.k", SBool).S)
+	// the key is named after the frame and the instruction: a state forked inside the lookup below
+	// re-executes this instruction and must meet the same key (a fresh key per re-execution never ends);
+	// loops are cut, so a Next instruction runs once per frame on a path
+	kv := x.symbolic(st, mt.Key(), fmt.Sprintf("range.k.%s.%s!f%d", fr.fn.Name(), i.Name(), fr.id))
 	val, present := x.mapGenLookup(st, m, kv)
 	if st.dead {
 		return
@@ -622,6 +625,25 @@ func (x *Exec) nextInstr(st *State, fr *Frame, i *ssa.Next, set func(Value)) {
 
 // --------------------------------------------------------------------------
 // type assertions
+
+// dynExclusive: an interface value has one dynamic type, so the tests "<id>.as.<T>.ok" of an opaque
+// interface value against distinct concrete types exclude each other.
+func (x *Exec) dynExclusive(st *State, id, t string) {
+	if x.dynTests == nil {
+		x.dynTests = map[string][]string{}
+	}
+	seen := false
+	for _, o := range x.dynTests[id] {
+		if o == t {
+			seen = true
+			continue
+		}
+		st.assume(Not(And(x.sym.Named(id+".as."+t+".ok", SBool), x.sym.Named(id+".as."+o+".ok", SBool))))
+	}
+	if !seen {
+		x.dynTests[id] = append(x.dynTests[id], t)
+	}
+}
 
 func (x *Exec) typeAssert(st *State, fr *Frame, i *ssa.TypeAssert, set func(Value)) {
 	v := x.force(st, x.eval(st, fr, i.X))
@@ -681,6 +703,9 @@ func (x *Exec) typeAssert(st *State, fr *Frame, i *ssa.TypeAssert, set func(Valu
 	}
 	okT := x.sym.Named(name+".ok", SBool)
 	st.assume(Implies(iv.Nil, Not(okT)))
+	if !toIface && iv.Id.S != "" {
+		x.dynExclusive(st, iv.Id.S, typeShort(i.AssertedType))
+	}
 	var res Value
 	if toIface {
 		res = iv
